@@ -1089,6 +1089,21 @@ func (c *child) judgeUnauth(rs reqSpec, mode string) bool {
 // authenticated repeats the table with credentials: no request may be refused for lack of auth.
 func (c *child) authenticated() {
 	tab := c.table()
+	// Sequential, reads before writes: perkeep's search handlers take the index read lock
+	// recursively (serveClaims -> GetClaims), which deadlocks when an index write gets queued
+	// in between; that is a concurrency defect outside this property, so this phase gives it
+	// no concurrent writers.
+	rank := func(rs reqSpec) int {
+		mut := rs.Method == "PUT" || (rs.Method == "POST" && (rs.Kind == "upload" || rs.Kind == "uploadhelper" || rs.Kind == "sign")) || rs.HType == "importer"
+		switch {
+		case mut:
+			return 2
+		case rs.HType == "search":
+			return 0
+		}
+		return 1
+	}
+	sort.SliceStable(tab, func(i, j int) bool { return rank(tab[i]) < rank(tab[j]) })
 	ch := make(chan reqSpec, len(tab))
 	for _, rs := range tab {
 		if rs.NoCred {
@@ -1098,7 +1113,7 @@ func (c *child) authenticated() {
 	}
 	close(ch)
 	var wg sync.WaitGroup
-	for k := 0; k < 8; k++ {
+	for k := 0; k < 1; k++ {
 		wg.Add(1)
 		go func() {
 			defer wg.Done()
